@@ -327,14 +327,74 @@ def replay_reuse(expr: str, steps: list[tuple]) -> tuple[list[str], list[str]]:
     return reused, fresh
 
 
+PURITY_DIFFS: list[dict] = []
+PURITY = {'calls_with_trees': 0}
+
+
+def tree_top(obj):
+    """the top of the tree an input belongs to (ElementTree element: the object itself is all we can reach)"""
+    if hasattr(obj, 'getroot'):
+        return obj.getroot()
+    if hasattr(obj, 'getroottree'):
+        return obj.getroottree().getroot()
+    if hasattr(obj, 'tag'):
+        return obj
+    return None
+
+
+def tree_snapshot(top) -> str:
+    """everything of an input tree, tails and (lxml) document-level siblings included"""
+    parts = [canon_xml(top)]
+    if hasattr(top, 'getprevious'):
+        x = top.getprevious()
+        while x is not None:
+            parts.insert(0, canon_xml(x))
+            x = x.getprevious()
+        x = top.getnext()
+        while x is not None:
+            parts.append(canon_xml(x))
+            x = x.getnext()
+    return json.dumps(parts, ensure_ascii=True)
+
+
+def input_trees(rt, item, variables) -> list:
+    tops, seen = [], set()
+    objs = [rt, item]
+    for v in variables.values():
+        objs.extend(v if isinstance(v, list) else [v])
+    for o in objs:
+        t = tree_top(o) if o is not None else None
+        if t is not None and id(t) not in seen and t is not ep()['root']:
+            seen.add(id(t))
+            tops.append(t)
+    return tops
+
+
+def check_purity(expr, which, tops, before, step):
+    """fn:serialize, fn:parse-xml, fn:json-to-xml, fn:xml-to-json ... are functions: the trees given to an
+    evaluation must be the same afterwards (text, tails, attributes, children, document-level siblings)"""
+    for t, b in zip(tops, before):
+        a = tree_snapshot(t)
+        if a != b and len(PURITY_DIFFS) < 20:
+            PURITY_DIFFS.append({'expr': expr, 'which': which, 'before': b, 'after': a, 'input': describe_input(*step)})
+
+
 def xq(expr: str, root=None, _item=None, _reuse=True, **variables):
     c = ep()
     rt = c['root'] if root is None else root
     kw: dict[str, Any] = {'variables': variables} if variables else {}
     if _item is not None:
         kw['item'] = _item
+    tops = input_trees(rt, _item, variables)
+    before = [tree_snapshot(t) for t in tops]
+    if tops:
+        PURITY['calls_with_trees'] += 1
     if not (REUSE['on'] and _reuse):
-        return c['elementpath'].select(rt, expr, parser=c['Parser'], **kw)
+        o = outcome(lambda: c['elementpath'].select(rt, expr, parser=c['Parser'], **kw))
+        check_purity(expr, 'fresh', tops, before, (rt, _item, dict(variables)))
+        if not o[0]:
+            raise o[1]
+        return o[1]
     sel = _SELECTORS.get(expr)
     if sel is None:
         sel = _SELECTORS[expr] = c['elementpath'].Selector(expr, parser=c['Parser'])
@@ -342,7 +402,10 @@ def xq(expr: str, root=None, _item=None, _reuse=True, **variables):
         REUSE['tokens'] += 1
     REUSE['evaluations'] += 1
     o_reused = outcome(lambda: sel.select(rt, **kw))
+    check_purity(expr, 'reused token', tops, before, (rt, _item, dict(variables)))
+    before = [tree_snapshot(t) for t in tops]
     o_fresh = outcome(lambda: c['elementpath'].select(rt, expr, parser=c['Parser'], **kw))
+    check_purity(expr, 'fresh expression', tops, before, (rt, _item, dict(variables)))
     hist = _HISTORY[expr]
     step = (rt, _item, dict(variables))
     a, b = canon_outcome(o_reused), canon_outcome(o_fresh)
@@ -359,6 +422,13 @@ def xq(expr: str, root=None, _item=None, _reuse=True, **variables):
 def reuse_disagreements() -> list[Disagreement]:
     """turn the recorded reused-vs-fresh differences into disagreements with a minimal replayable history"""
     out = []
+    pur = []
+    for d in PURITY_DIFFS:
+        case = {'kind': 'PURITY', 'expr': d['expr'], 'evaluated_with': d['which'], 'input': d['input'],
+                'history': ['evaluate the expression on the input', 'look at the input tree again']}
+        pur.append(Disagreement(case, impl=d['after'], model=d['before'], spec=d['before'],
+                                what='input tree modified by an evaluation (fn:serialize / parse-xml / json-to-xml / xml-to-json are functions)',
+                                site=d['expr'][:80]))
     for d in REUSE_DIFFS:
         steps = d['steps']
         best = None
@@ -380,7 +450,8 @@ def reuse_disagreements() -> list[Disagreement]:
                                 what='one token evaluated repeatedly vs freshly parsed expression',
                                 site='token state kept between evaluations: ' + d['expr'][:60]))
     del REUSE_DIFFS[:]
-    return out
+    del PURITY_DIFFS[:]
+    return pur + out
 
 
 def xq_item(expr: str, **variables):
@@ -1364,6 +1435,163 @@ def check_neg(run: Run, case) -> list[Disagreement]:
     return []
 
 
+# serialization parameters -------------------------------------------------------------------------------
+SER_PARAMS = [
+    # (map entries, content-neutral for method xml?)
+    ('', True), ('"method":"xml"', True), ('"method":"html"', False), ('"method":"xhtml"', False), ('"method":"text"', False),
+    ('"method":"json"', False), ('"method":"adaptive"', False), ('"method":"bogus"', False),
+    ('"standalone":true()', True), ('"standalone":false()', True), ('"standalone":"yes"', True), ('"standalone":"no"', True),
+    ('"standalone":"omit"', True), ('"standalone":()', True), ('"standalone":"maybe"', False),
+    ('"omit-xml-declaration":true()', True), ('"omit-xml-declaration":false()', True), ('"omit-xml-declaration":"x"', False),
+    ('"omit-xml-declaration":false(),"standalone":true()', True), ('"omit-xml-declaration":false(),"standalone":"no"', True),
+    ('"indent":false()', True), ('"indent":true()', False), ('"indent":"x"', False),
+    ('"encoding":"utf-8"', True), ('"encoding":"UTF-8"', True), ('"encoding":1', False),
+    ('"item-separator":"|"', True), ('"item-separator":1', False),
+    ('"cdata-section-elements":[xs:QName("b")]', True), ('"cdata-section-elements":"b"', False),
+    ('"nonsense":1', True), ('"html-version":5', True), ('"method":"html","indent":true()', False),
+    ('"method":"xml","standalone":true(),"indent":false()', True),
+]
+SER_NODES = {'self': '.', 'attributes': '@*', 'text': 'text()', 'comment': 'comment()', 'pi': 'processing-instruction()',
+             'document': '/', 'children': 'node()', 'two-elements': '(., .)'}
+SER_ALLOWED_ERRORS = ('SEPM', 'SENR', 'SERE', 'XPTY', 'XPST')
+
+
+def build_serp_tree(seed: int, lib: str):
+    import random
+    r = random.Random(seed)
+    root = gen_xml(r, lib, r.choice([1, 2, 3]))
+    elems = [e for e in root.iter() if isinstance(e.tag, str)]
+    # make sure there is mixed content: an inner element with a non-whitespace tail
+    inner = [e for e in elems if e is not root]
+    if not inner:
+        E = ep()['ET'] if lib == 'etree' else __import__('lxml.etree').etree
+        ch = E.SubElement(root, 'b')
+        inner = [ch]
+        elems.append(ch)
+    if not any(e.tail and e.tail.strip() for e in inner):
+        r.choice(inner).tail = r.choice(['tail text', 't&u', 'mixed > content'])
+    return root, elems
+
+
+def serp_step(rng, n_elems: int) -> dict:
+    return {'elem': rng.randrange(n_elems), 'node': rng.choice(list(SER_NODES)), 'params': rng.randrange(len(SER_PARAMS))}
+
+
+def run_serp_step(root, elems, lib, step) -> tuple[str, Any]:
+    el = elems[step['elem'] % len(elems)]
+    entries, _ = SER_PARAMS[step['params']]
+    expr = 'serialize(%s, map{%s})' % (SER_NODES[step['node']], entries)
+    rt = root
+    if step['node'] == 'document':       # a document node needs a tree object as root
+        rt = root.getroottree() if hasattr(root, 'getroottree') else ep()['ET'].ElementTree(root)
+    o = outcome(lambda: xq(expr, root=rt, _item=None if el is root else el))
+    return expr, o
+
+
+def describe_step(root, elems, step) -> dict:
+    el = elems[step['elem'] % len(elems)]
+    return {'serialize': SER_NODES[step['node']], 'params': 'map{%s}' % SER_PARAMS[step['params']][0],
+            'context_item': 'element #%d <%s> tail=%r' % (step['elem'] % len(elems), el.tag, el.tail)}
+
+
+def check_serp(run: Run, case) -> list[Disagreement]:
+    """one serialization with parameters: outcome class, purity (inside xq), round trip where the parameters keep the content"""
+    lib, step = case['lib'], case['step']
+    root, elems = build_serp_tree(case['seed'], lib)
+    el = elems[step['elem'] % len(elems)]
+    expr, o = run_serp_step(root, elems, lib, step)
+    entries, neutral = SER_PARAMS[step['params']]
+    st = run.stats
+    cj = {'kind': 'SERP', 'lib': lib, 'seed': case['seed'], 'step': describe_step(root, elems, step), 'expr': expr}
+    st.count('serp:node=' + step['node'])
+    st.count('serp:' + ('tail' if (el.tail and el is not root) else 'no-tail'))
+    if not o[0]:
+        code = err_text(o[1])
+        st.count('serp:' + code[:12])
+        if not code.startswith(tuple('ERR:' + p for p in SER_ALLOWED_ERRORS)):
+            return [Disagreement(cj, code, None, spec='a serialization error (SEPM/SENR/SERE/XPTY) or a string',
+                                 what='fn:serialize with parameters: unexpected exception', site='serialization.get_serialization_params / serialize_to_xml')]
+        return []
+    text = o[1]
+    st.count('serp:ok')
+    if not isinstance(text, str):
+        return [Disagreement(cj, repr(text)[:200], None, spec='xs:string', what='fn:serialize result is not a string', site='fn:serialize')]
+    if neutral and step['node'] in ('self', 'document') and 'method' not in entries.replace('"method":"xml"', ''):
+        want = canon_xml(el if step['node'] == 'self' else root)
+        want[4] = ''
+        try:
+            res = xq('parse-xml($s)', root=root, s=text)
+            doc = res[0] if isinstance(res, list) else res
+            inner = getattr(doc, 'value', None)
+            if inner is not None and hasattr(inner, 'getroot'):
+                doc = inner
+            got = canon_xml(doc.getroot())
+            got[4] = ''
+            impl = json.dumps(got, ensure_ascii=True)
+        except Exception as e:
+            impl = err_text(e)
+        spec = json.dumps(want, ensure_ascii=True)
+        st.count('serp:round-trip-checked')
+        if impl != spec:
+            tags = ['F17n'] if lib == 'etree' and subtree_has_cr(el if step['node'] == 'self' else root) else []
+            return [Disagreement(dict(cj, text=text[:400]), impl, None, spec=spec, tags=tags,
+                                 what='parse-xml(serialize(node, params)) structure', site='fn:serialize parameters')]
+    return []
+
+
+def serh_final(root, lib):
+    want = canon_xml(root)
+    want[4] = ''
+    return json.dumps(want, ensure_ascii=True)
+
+
+def run_serh(seed: int, lib: str, steps: list[dict]) -> tuple[str, str, list]:
+    """serialize several nodes of ONE tree with different parameters, then round-trip the whole tree;
+    -> (what the round trip gives, canonical form of the tree before the history, step descriptions)"""
+    root, elems = build_serp_tree(seed, lib)
+    spec = serh_final(root, lib)
+    desc = []
+    for stp in steps:
+        desc.append(describe_step(root, elems, stp))
+        run_serp_step(root, elems, lib, stp)
+    try:
+        res = xq('parse-xml(serialize(.))', root=root)
+        doc = res[0] if isinstance(res, list) else res
+        inner = getattr(doc, 'value', None)
+        if inner is not None and hasattr(inner, 'getroot'):
+            doc = inner
+        got = canon_xml(doc.getroot())
+        got[4] = ''
+        impl = json.dumps(got, ensure_ascii=True)
+    except Exception as e:
+        impl = err_text(e)
+    return impl, spec, desc
+
+
+def check_serh(run: Run, case) -> list[Disagreement]:
+    lib, seed, steps = case['lib'], case['seed'], case['steps']
+    impl, spec, desc = run_serh(seed, lib, steps)
+    run.stats.count('serh:%s:steps=%d' % (lib, len(steps)))
+    if impl == spec:
+        return []
+    root, _ = build_serp_tree(seed, lib)
+    tags = ['F17n'] if lib == 'etree' and subtree_has_cr(root) else []
+    # smallest history: one serialization + the round trip
+    for stp in steps:
+        i2, s2, d2 = run_serh(seed, lib, [stp])
+        if i2 != s2:
+            impl, spec, desc = i2, s2, d2
+            break
+    else:
+        i0, s0, _ = run_serh(seed, lib, [])
+        if i0 != s0:
+            impl, spec, desc = i0, s0, []
+    cj = {'kind': 'SERH', 'lib': lib, 'seed': seed,
+          'history': desc + [{'then': 'parse-xml(serialize(.)) on the root of the same tree, compared with the tree before the history'}]}
+    return [Disagreement(cj, impl, None, spec=spec, tags=tags if not desc else tags,
+                         what='round trip of a tree after serializing some of its nodes', site='fn:serialize (source tree must stay unchanged)')]
+
+
 # one token, several evaluations inside ONE expression ---------------------------------------------------
 MULTI_EXPR = {
     # sub-kind: (for-expression, single expression, variable, every item must be True?)
@@ -1559,6 +1787,10 @@ def evaluate(run: Run, cases: list[dict]) -> list[list[Disagreement]]:
             results[i] = check_xesc(run, c, a)
         elif k == 'NEG':
             results[i] = check_neg(run, c)
+        elif k == 'SERP':
+            results[i] = check_serp(run, c)
+        elif k == 'SERH':
+            results[i] = check_serh(run, c)
         elif k == 'JXE':
             results[i] = check_jxe(run, c, a)
         elif k == 'J2XE':
@@ -1603,6 +1835,7 @@ CORPUS: list[dict] = [
     {'kind': 'PARSE', 't': '{"a":1,"b":2,"a":3}', 'policy': 'last'}, {'kind': 'PARSE', 't': '{"a":1,"a":2}', 'policy': 'reject'},
     {'kind': 'PARSE', 't': '{"a":1,"a":2}', 'policy': None}, {'kind': 'PARSE', 't': '{"a":{"x":1,"x":2},"a":3}', 'policy': 'first'},
     {'kind': 'X2J', 'elem': ('m', None, None, [('n', 'a', None, []), ('s', 'b\\n', 'x\\y"/', []), ('d', 'c', '1e+20', [])])},
+    {'kind': 'SERH', 'lib': 'etree', 'seed': 7, 'steps': [{'elem': k, 'node': 'self', 'params': 8} for k in range(1, 6)]},
     {'kind': 'JXE', 's': '/'}, {'kind': 'JXE', 's': '\\/'}, {'kind': 'JXE', 's': 'b\\"'}, {'kind': 'JXE', 's': '\\uZZZZ'}, {'kind': 'JXE', 's': 'a\\'},
     {'kind': 'J2XE', 't': '{"a\\\\b":[],"":[],"a":[false,null]}'},
     {'kind': 'XESC', 's': 'x\ry'}, {'kind': 'XESC', 's': 'a&b<c>d"e\'f\r\n\tg]]>'},
@@ -1668,6 +1901,13 @@ def gen_cases(run: Run) -> list[dict]:
                     (root.addprevious if rng.random() < 0.6 else root.addnext)(x)
         cases.append(c)
     cases.extend(neg_cases(rng))
+    for _ in range(260 * n):
+        lib = rng.choice(['etree', 'lxml'])
+        cases.append({'kind': 'SERP', 'lib': lib, 'seed': rng.randrange(10 ** 9), 'step': serp_step(rng, 12)})
+    for _ in range(60 * n):
+        lib = rng.choice(['etree', 'etree', 'lxml'])
+        cases.append({'kind': 'SERH', 'lib': lib, 'seed': rng.randrange(10 ** 9),
+                      'steps': [serp_step(rng, 12) for _ in range(rng.choice([1, 2, 3, 5]))]})
     for _ in range(120 * n):
         cases.append(gen_multi(rng))
     for _ in range(150 * n):
@@ -1688,7 +1928,7 @@ def correspond(run: Run, cases: list[dict]) -> None:
         run.log('chunk', i, len(cases))
         for c, ds in zip(chunk, evaluate(run, chunk)):
             cj = case_json(c)
-            nontrivial = bool(c.get('s') or c.get('t') or c.get('elem') or c.get('v') is not None or c['kind'] in ('XML', 'MULTI', 'NEG'))
+            nontrivial = bool(c.get('s') or c.get('t') or c.get('elem') or c.get('v') is not None or c['kind'] in ('XML', 'MULTI', 'NEG', 'SERP', 'SERH'))
             st.case(cj if c['kind'] not in ('XML', 'MULTI') else {'kind': c['kind'], 'n': st.evaluations}, nontrivial=nontrivial)
             st.count('kind:' + c['kind'])
             if c['kind'] == 'SER':
@@ -1787,7 +2027,7 @@ def smaller_values(v: Any):
 
 def shrink(d: Disagreement) -> Disagreement:
     case = getattr(d, '_case', None)
-    if isinstance(d.case, dict) and d.case.get('kind') in ('REUSE', 'MULTI'):
+    if isinstance(d.case, dict) and d.case.get('kind') in ('REUSE', 'MULTI', 'PURITY', 'SERP', 'SERH', 'NEG'):
         return d                      # already a minimal replayed history
     if case is None or case['kind'] in ('XML', 'X2J', 'MULTI', 'REUSE'):
         return d
@@ -1845,6 +2085,7 @@ def body(run: Run) -> int:
         correspond(run, [dict(c) for c in CORPUS] + gen_cases(run))
     except DriverError as e:
         run.broken.append('driver:C17 ' + str(e)[:300])
+    run.stats.extra['purity'] = {'evaluations_with_input_trees_snapshotted_before_and_after': PURITY['calls_with_trees']}
     run.stats.extra['token_reuse'] = {'tokens': REUSE['tokens'], 'evaluations_through_reused_tokens': REUSE['evaluations'],
                                       'each_compared_with': 'a freshly parsed expression (elementpath.select)'}
     return run.finish('proof', shrink=shrink, search=search)
